@@ -684,3 +684,407 @@ Proof.
   intros H Hs. destruct (convert_no_error _ _ H) as (ts & fs & Hc & ->).
   destruct (convert_rows_ok _ _ _ _ _ _ Hc) as (_ & _ & Hacc). apply Hacc; [exact Hs | exact I].
 Qed.
+
+(* ---------- run_with_args: filters, rate, sort ---------- *)
+Lemma insert_sorted_perm x l : Permutation (insert_sorted x l) (x :: l).
+Proof.
+  induction l as [|y r IH]; [apply Permutation_refl|].
+  cbn [insert_sorted]. destruct (btx_le x y); [apply Permutation_refl|].
+  apply perm_trans with (y :: x :: r); [apply perm_skip; exact IH | apply perm_swap].
+Qed.
+
+Lemma sort_btx_perm l : Permutation (sort_btx l) l.
+Proof.
+  induction l as [|x r IH]; [apply perm_nil|].
+  unfold sort_btx in *. cbn [fold_right].
+  apply perm_trans with (x :: fold_right insert_sorted [] r); [apply insert_sorted_perm | apply perm_skip; exact IH].
+Qed.
+
+Lemma perm_filter {A} (f : A -> bool) l l' : Permutation l l' -> Permutation (filter f l) (filter f l').
+Proof.
+  intros H. induction H as [| x l l' _ IH | x y l | l l' l'' _ IH1 _ IH2].
+  - apply perm_nil.
+  - cbn [filter]. destruct (f x); [apply perm_skip|]; exact IH.
+  - cbn [filter]. destruct (f x), (f y); try apply Permutation_refl. apply perm_swap.
+  - apply perm_trans with (filter f l'); assumption.
+Qed.
+
+Lemma filter_comm {A} (f g : A -> bool) l : filter f (filter g l) = filter g (filter f l).
+Proof.
+  induction l as [|x r IH]; [reflexivity|].
+  cbn [filter]. destruct (g x) eqn:Eg, (f x) eqn:Ef; cbn [filter]; rewrite ?Eg, ?Ef, IH; reflexivity.
+Qed.
+
+Lemma filter_map_inv {A} (p : A -> bool) (f : A -> A) l :
+  (forall x, p (f x) = p x) -> filter p (map f l) = map f (filter p l).
+Proof.
+  intros H. induction l as [|x r IH]; [reflexivity|].
+  cbn [map filter]. rewrite H. destruct (p x); cbn [map]; rewrite IH; reflexivity.
+Qed.
+
+Lemma apply_rate_is_trade r t : is_trade (apply_rate r t) = is_trade t.
+Proof. unfold apply_rate. destruct r; [|reflexivity]. destruct (text_eqb (b_cur t) t_USD); reflexivity. Qed.
+Lemma apply_rate_is_fx r t : is_fx (apply_rate r t) = is_fx t.
+Proof. unfold apply_rate. destruct r; [|reflexivity]. destruct (text_eqb (b_cur t) t_USD); reflexivity. Qed.
+Lemma apply_rate_signed r t : signed_shares (apply_rate r t) = signed_shares t.
+Proof. unfold apply_rate. destruct r; [|reflexivity]. destruct (text_eqb (b_cur t) t_USD); reflexivity. Qed.
+
+(* which transactions the options keep *)
+Definition keeps (o : opts) (t : btx) : bool :=
+  match o_account o with Some f => f (account_str (b_acct t)) | None => true end
+  && match o_security o with Some f => f (b_sec t) | None => true end
+  && (if o_no_fx o then negb (is_fx_security (b_sec t)) else true).
+
+Lemma filter_and {A} (f g : A -> bool) l : filter (fun x => f x && g x) l = filter g (filter f l).
+Proof.
+  induction l as [|x r IH]; [reflexivity|]. cbn [filter].
+  destruct (f x); cbn [andb filter]; [destruct (g x)|]; rewrite IH; reflexivity.
+Qed.
+Lemma filter_true {A} (l : list A) : filter (fun _ => true) l = l.
+Proof. induction l as [|x r IH]; [reflexivity|]. cbn [filter]. rewrite IH. reflexivity. Qed.
+
+Lemma post_process_shape o txs out :
+  post_process o txs = Some out ->
+  let pre := map (apply_rate (o_rate o)) (filter (keeps o) txs) in
+  out = if o_no_sort o then pre else sort_btx pre.
+Proof.
+  unfold post_process. intros H.
+  assert (Hk : forall t1, (match o_account o with
+                           | Some f => Some (filter (fun t => f (account_str (b_acct t))) txs)
+                           | None => if Nat.ltb 1 (length (distinct_accounts (map b_acct txs))) then None else Some txs
+                           end) = Some t1 ->
+          t1 = filter (fun t => match o_account o with Some f => f (account_str (b_acct t)) | None => true end) txs).
+  { intros t1. destruct (o_account o); [intros E; inversion E; reflexivity|].
+    destruct (Nat.ltb 1 _); [discriminate|]. intros E; inversion E. rewrite filter_true. reflexivity. }
+  destruct (match o_account o with Some f => _ | None => _ end) as [t1|] eqn:E1; [|discriminate].
+  specialize (Hk t1 eq_refl). inversion H as [Hout]. clear H. cbv zeta.
+  assert (Hf : (if o_no_fx o
+                then filter (fun t => negb (is_fx_security (b_sec t)))
+                       match o_security o with Some f => filter (fun t => f (b_sec t)) t1 | None => t1 end
+                else match o_security o with Some f => filter (fun t => f (b_sec t)) t1 | None => t1 end)
+               = filter (keeps o) txs).
+  { unfold keeps. rewrite !filter_and. rewrite <- Hk.
+    destruct (o_security o); destruct (o_no_fx o); rewrite ?filter_true; reflexivity. }
+  rewrite Hf. reflexivity.
+Qed.
+
+(* one output row per trade activity that passes the filters; in input order
+   when --no-sort is given, a permutation of it otherwise *)
+Theorem run_trades o txs out :
+  post_process o txs = Some out ->
+  Permutation (filter is_trade out)
+              (map (apply_rate (o_rate o)) (filter (keeps o) (filter is_trade txs))) /\
+  (o_no_sort o = true ->
+   filter is_trade out = map (apply_rate (o_rate o)) (filter (keeps o) (filter is_trade txs))).
+Proof.
+  intros H. pose proof (post_process_shape o txs out H) as Hs. cbv zeta in Hs.
+  assert (Hpre : filter is_trade (map (apply_rate (o_rate o)) (filter (keeps o) txs))
+                 = map (apply_rate (o_rate o)) (filter (keeps o) (filter is_trade txs))).
+  { rewrite filter_map_inv by (intros x; apply apply_rate_is_trade). rewrite filter_comm. reflexivity. }
+  split.
+  - rewrite Hs. destruct (o_no_sort o).
+    + rewrite Hpre. apply Permutation_refl.
+    + rewrite <- Hpre. apply perm_filter. apply sort_btx_perm.
+  - intros Hn. rewrite Hs, Hn. exact Hpre.
+Qed.
+
+Lemma apply_rate_accepts r t :
+  (forall x, r = Some x -> (0 < x)%Qc) -> acb_accepts t = true -> acb_accepts (apply_rate r t) = true.
+Proof.
+  intros Hr Ha. unfold apply_rate. destruct r as [x|]; [|exact Ha].
+  destruct (text_eqb (b_cur t) t_USD) eqn:Eu; [|exact Ha].
+  unfold acb_accepts in *. cbn [b_shares b_price b_comm b_sec b_rate b_cur].
+  rewrite !andb_true_iff in Ha. destruct Ha as [[[[H1 H2] H3] H4] _].
+  rewrite H1, H2, H3, H4, (usd_not_cad _ Eu). cbn [andb]. apply Qcltb_true. apply Hr. reflexivity.
+Qed.
+
+Theorem run_accepted o txs out :
+  post_process o txs = Some out ->
+  (forall x, o_rate o = Some x -> (0 < x)%Qc) ->
+  Forall (fun t => acb_accepts t = true) txs -> Forall (fun t => acb_accepts t = true) out.
+Proof.
+  intros H Hr Ha. pose proof (post_process_shape o txs out H) as Hs. cbv zeta in Hs.
+  assert (Hpre : Forall (fun t => acb_accepts t = true) (map (apply_rate (o_rate o)) (filter (keeps o) txs))).
+  { rewrite Forall_forall in *. intros y Hy. apply in_map_iff in Hy. destruct Hy as [t [<- Ht]].
+    apply filter_In in Ht. apply apply_rate_accepts; [exact Hr | apply Ha; apply Ht]. }
+  rewrite Hs. destruct (o_no_sort o); [exact Hpre|].
+  rewrite Forall_forall in *. intros y Hy. apply Hpre.
+  apply (Permutation_in y (sort_btx_perm _)). exact Hy.
+Qed.
+
+Lemma signed_sum_perm l l' : Permutation l l' -> signed_sum l = signed_sum l'.
+Proof.
+  intros H. induction H as [| x l l' _ IH | x y l | l l' l'' _ IH1 _ IH2].
+  - reflexivity.
+  - rewrite !signed_sum_cons, IH. reflexivity.
+  - rewrite !signed_sum_cons. ring.
+  - rewrite IH1. exact IH2.
+Qed.
+
+(* sorting and --usd-exchange-rate do not move cash *)
+Theorem run_cash o txs out :
+  post_process o txs = Some out ->
+  (forall t, In t txs -> keeps o t = true) ->
+  signed_sum (filter is_fx out) = signed_sum (filter is_fx txs).
+Proof.
+  intros H Hk. pose proof (post_process_shape o txs out H) as Hs. cbv zeta in Hs.
+  assert (Hkeep : filter (keeps o) txs = txs).
+  { clear H Hs. induction txs as [|x r IH]; [reflexivity|]. cbn [filter].
+    rewrite (Hk x (or_introl eq_refl)), IH; [reflexivity|]. intros t Ht. apply Hk. right. exact Ht. }
+  rewrite Hkeep in Hs.
+  assert (Hpre : signed_sum (filter is_fx (map (apply_rate (o_rate o)) txs)) = signed_sum (filter is_fx txs)).
+  { rewrite filter_map_inv by (intros x; apply apply_rate_is_fx).
+    clear. induction (filter is_fx txs) as [|x r IH]; [reflexivity|].
+    cbn [map]. rewrite !signed_sum_cons, apply_rate_signed, IH. reflexivity. }
+  rewrite Hs. destruct (o_no_sort o); [exact Hpre|].
+  rewrite <- Hpre. apply signed_sum_perm. apply perm_filter. apply sort_btx_perm.
+Qed.
+
+(* ---------- column layout ---------- *)
+Lemma last_index_app a b name :
+  last_index (a ++ b) name =
+  match last_index b name with
+  | Some j => Some (length a + j)%nat
+  | None => last_index a name
+  end.
+Proof.
+  induction a as [|x a IH]; cbn [app last_index length].
+  - destruct (last_index b name); reflexivity.
+  - rewrite IH. destruct (last_index b name); [reflexivity|]. reflexivity.
+Qed.
+
+Lemma last_index_lt l name i : last_index l name = Some i -> (i < length l)%nat.
+Proof.
+  revert i. induction l as [|x l IH]; intros i H; [discriminate|].
+  cbn [last_index] in H. destruct (last_index l name) as [j|].
+  - inversion H. specialize (IH j eq_refl). cbn. lia.
+  - destruct (cell_is name x); inversion H. cbn. lia.
+Qed.
+
+Definition insert_at {A} (k : nat) (x : A) (l : list A) : list A := firstn k l ++ x :: skipn k l.
+
+(* a new column: header cell h, one cell per row *)
+Definition insert_col (k : nat) (h : cell) (cells : list cell) (sh : sheet) : sheet :=
+  match sh with
+  | [] => []
+  | hdr :: rows =>
+      insert_at k h hdr :: map (fun cr => insert_at k (fst cr) (snd cr)) (combine cells rows)
+  end.
+
+Lemma get_insert k h c hdr row name :
+  length row = length hdr -> (k <= length hdr)%nat -> cell_is name h = false ->
+  get HeaderEnumerated (insert_at k h hdr) (insert_at k c row) name = get HeaderEnumerated hdr row name.
+Proof.
+  intros Hlen Hk Hh. unfold get, header_index, insert_at.
+  assert (Hla : length (firstn k hdr) = k) by (apply firstn_length_le; exact Hk).
+  assert (Hra : length (firstn k row) = k) by (apply firstn_length_le; lia).
+  pose proof (firstn_skipn k hdr) as Hhdr. pose proof (firstn_skipn k row) as Hrow.
+  remember (firstn k hdr) as ha. remember (skipn k hdr) as hb.
+  remember (firstn k row) as ra. remember (skipn k row) as rb.
+  rewrite <- Hhdr, <- Hrow. rewrite !last_index_app.
+  cbn [last_index]. rewrite Hh.
+  destruct (last_index hb name) as [j|] eqn:Eb.
+  - rewrite Hla. rewrite !nth_error_app2 by lia. rewrite Hra.
+    replace (k + S j - k)%nat with (S j) by lia. replace (k + j - k)%nat with j by lia. reflexivity.
+  - destruct (last_index ha name) as [i|] eqn:Ea; [|reflexivity].
+    apply last_index_lt in Ea. rewrite Hla in Ea.
+    rewrite !nth_error_app1 by lia. reflexivity.
+Qed.
+
+Definition unrelated_header (h : cell) : bool :=
+  forallb (fun name => negb (cell_is name h)) used_headers.
+
+Lemma read_row_insert k h c hdr row :
+  length row = length hdr -> (k <= length hdr)%nat -> unrelated_header h = true ->
+  read_row HeaderEnumerated (insert_at k h hdr) (insert_at k c row) = read_row HeaderEnumerated hdr row.
+Proof.
+  intros Hlen Hk Hu. unfold unrelated_header, used_headers in Hu. cbn [forallb] in Hu.
+  repeat (apply andb_true_iff in Hu; destruct Hu as [?Hn Hu]).
+  repeat match goal with Hx : negb _ = true |- _ => apply negb_true_iff in Hx end.
+  unfold read_row. rewrite !get_insert by assumption. reflexivity.
+Qed.
+
+(* inserting a column whose header is blank, not a string, or any string that
+   is not one of the named headers changes nothing *)
+Theorem layout_insert k h cells hdr rows :
+  Forall (fun r => length r = length hdr) rows -> (k <= length hdr)%nat ->
+  length cells = length rows -> unrelated_header h = true ->
+  sheet_rows HeaderEnumerated (insert_col k h cells (hdr :: rows))
+  = sheet_rows HeaderEnumerated (hdr :: rows).
+Proof.
+  intros Hrect Hk Hlen Hu. cbn [insert_col sheet_rows]. f_equal.
+  revert cells Hlen. induction Hrect as [|r rows Hr _ IH]; intros cells Hlen.
+  - destruct cells; reflexivity.
+  - destruct cells as [|c cells]; [discriminate|]. cbn [combine map fst snd].
+    rewrite (read_row_insert k h c hdr r Hr Hk Hu). f_equal. apply IH. cbn in Hlen. lia.
+Qed.
+
+(* --- permutation of the columns --- *)
+Definition permute (p : list nat) (l : list cell) : list cell := map (fun i => nth i l CEmpty) p.
+Definition permute_cols (p : list nat) (sh : sheet) : sheet := map (permute p) sh.
+
+Definition at_name (hdr : list cell) (name : text) (i : nat) : Prop :=
+  exists s, nth_error hdr i = Some (CStr s) /\ text_eqb s name = true.
+
+Lemma last_index_at hdr name i : last_index hdr name = Some i -> at_name hdr name i.
+Proof.
+  revert i. induction hdr as [|x l IH]; intros i H; [discriminate|].
+  cbn [last_index] in H. destruct (last_index l name) as [j|].
+  - inversion H. apply (IH j eq_refl).
+  - destruct (cell_is name x) eqn:E; inversion H. unfold cell_is in E. destruct x; try discriminate.
+    exists s. split; [reflexivity | exact E].
+Qed.
+
+Lemma last_index_none hdr name : last_index hdr name = None -> forall i, ~ at_name hdr name i.
+Proof.
+  induction hdr as [|x l IH]; intros H i [s [Hn He]]; [destruct i; discriminate|].
+  cbn [last_index] in H. destruct (last_index l name) as [j|] eqn:El; [discriminate|].
+  destruct (cell_is name x) eqn:E; [discriminate|].
+  destruct i as [|i].
+  - cbn in Hn. inversion Hn; subst. cbn in E. congruence.
+  - apply (IH eq_refl i). exists s. auto.
+Qed.
+
+Lemma at_name_some hdr name i : at_name hdr name i -> exists j, last_index hdr name = Some j.
+Proof.
+  intros H. destruct (last_index hdr name) as [j|] eqn:E; [exists j; reflexivity|].
+  exfalso. apply (last_index_none hdr name E i H).
+Qed.
+
+Definition unique_name (hdr : list cell) (name : text) : Prop :=
+  forall i j, at_name hdr name i -> at_name hdr name j -> i = j.
+
+Lemma get_unique hdr row name i :
+  unique_name hdr name -> at_name hdr name i ->
+  get HeaderEnumerated hdr row name = match nth_error row i with Some c => Cell c | None => OutOfRow end.
+Proof.
+  intros Hu Hi. unfold get, header_index. destruct (at_name_some hdr name i Hi) as [j Ej].
+  rewrite Ej. rewrite (Hu j i (last_index_at _ _ _ Ej) Hi). reflexivity.
+Qed.
+
+Lemma get_absent hdr row name :
+  (forall i, ~ at_name hdr name i) -> get HeaderEnumerated hdr row name = NoCol.
+Proof.
+  intros H. unfold get, header_index. destruct (last_index hdr name) as [j|] eqn:E; [|reflexivity].
+  exfalso. apply (H j). apply last_index_at. exact E.
+Qed.
+
+Lemma nth_error_permute p l j :
+  nth_error (permute p l) j = option_map (fun i => nth i l CEmpty) (nth_error p j).
+Proof. unfold permute. apply nth_error_map. Qed.
+
+Lemma at_name_permute p hdr name j :
+  at_name (permute p hdr) name j <-> exists i, nth_error p j = Some i /\ at_name hdr name i.
+Proof.
+  unfold at_name. rewrite nth_error_permute. split.
+  - intros [s [Hn He]]. destruct (nth_error p j) as [i|]; [|discriminate]. cbn in Hn. inversion Hn as [Hi].
+    exists i. split; [reflexivity|]. exists s. split; [|exact He].
+    destruct (nth_error hdr i) as [c|] eqn:E.
+    + rewrite (nth_error_nth _ _ CEmpty E) in Hi. subst. reflexivity.
+    + apply nth_error_None in E. rewrite nth_overflow in Hi by exact E. discriminate.
+  - intros [i [Hp [s [Hn He]]]]. rewrite Hp. cbn. exists s. split; [|exact He].
+    rewrite (nth_error_nth _ _ CEmpty Hn). reflexivity.
+Qed.
+
+Lemma get_permute p hdr row name :
+  NoDup p -> (forall i, (i < length hdr)%nat -> In i p) ->
+  length row = length hdr -> unique_name hdr name ->
+  get HeaderEnumerated (permute p hdr) (permute p row) name = get HeaderEnumerated hdr row name.
+Proof.
+  intros Hnd Hall Hlen Hu.
+  destruct (last_index hdr name) as [i|] eqn:E.
+  - pose proof (last_index_at _ _ _ E) as Hi.
+    assert (Hlt : (i < length hdr)%nat) by (apply (last_index_lt _ _ _ E)).
+    destruct (In_nth_error p i (Hall i Hlt)) as [j Hj].
+    assert (Hu' : unique_name (permute p hdr) name).
+    { intros j1 j2 H1 H2. apply at_name_permute in H1. apply at_name_permute in H2.
+      destruct H1 as [i1 [P1 A1]]. destruct H2 as [i2 [P2 A2]].
+      assert (i1 = i2) by (apply Hu; assumption). subst i2.
+      apply (proj1 (NoDup_nth_error p) Hnd).
+      - apply nth_error_Some. rewrite P1. discriminate.
+      - rewrite P1, P2. reflexivity. }
+    rewrite (get_unique (permute p hdr) (permute p row) name j Hu').
+    2:{ apply at_name_permute. exists i. auto. }
+    rewrite (get_unique hdr row name i Hu Hi).
+    rewrite nth_error_permute, Hj. cbn [option_map].
+    destruct (nth_error row i) as [c|] eqn:Er.
+    + rewrite (nth_error_nth _ _ CEmpty Er). reflexivity.
+    + apply nth_error_None in Er. lia.
+  - rewrite (get_absent hdr row name (last_index_none _ _ E)).
+    apply get_absent. intros j Hj. apply at_name_permute in Hj. destruct Hj as [i [_ Hi]].
+    apply (last_index_none _ _ E i Hi).
+Qed.
+
+Theorem layout_permute p hdr rows :
+  NoDup p -> (forall i, (i < length hdr)%nat -> In i p) ->
+  Forall (fun r => length r = length hdr) rows ->
+  Forall (unique_name hdr) used_headers ->
+  sheet_rows HeaderEnumerated (permute_cols p (hdr :: rows))
+  = sheet_rows HeaderEnumerated (hdr :: rows).
+Proof.
+  intros Hnd Hall Hrect Hu. cbn [permute_cols map sheet_rows]. f_equal.
+  rewrite map_map. apply map_ext_in. intros r Hr.
+  rewrite Forall_forall in Hrect. specialize (Hrect r Hr).
+  unfold used_headers in Hu.
+  repeat match goal with
+         | Hx : Forall _ (_ :: _) |- _ => inversion Hx; clear Hx; subst
+         end.
+  unfold read_row. rewrite !get_permute by assumption. reflexivity.
+Qed.
+
+(* the whole run only looks at the rows *)
+Lemma run_ext A pol o sh sh' :
+  sheet_rows pol sh = sheet_rows pol sh' -> run A pol o sh = run A pol o sh'.
+Proof. unfold run. intros ->. reflexivity. Qed.
+
+(* ---------- examples and the pre-fix header reading ---------- *)
+Definition ex_header : list cell := [CStr [84;114;97;110;115;97;99;116;105;111;110;32;68;97;116;101]; CStr [83;101;116;116;108;101;109;101;110;116;32;68;97;116;101]; CStr [65;99;116;105;111;110]; CStr [83;121;109;98;111;108]; CStr [68;101;115;99;114;105;112;116;105;111;110]; CStr [81;117;97;110;116;105;116;121]; CStr [80;114;105;99;101]; CStr [71;114;111;115;115;32;65;109;111;117;110;116]; CStr [67;111;109;109;105;115;115;105;111;110]; CStr [78;101;116;32;65;109;111;117;110;116]; CStr [67;117;114;114;101;110;99;121]; CStr [65;99;99;111;117;110;116;32;35]; CStr [65;99;116;105;118;105;116;121;32;84;121;112;101]; CStr [65;99;99;111;117;110;116;32;84;121;112;101]].
+Definition ex_rows : list (list cell) :=
+  [[CStr [50;48;50;51;45;48;49;45;48;51;32;49;50;58;48;48;58;48;48;32;65;77]; CStr [50;48;50;51;45;48;49;45;48;53;32;49;50;58;48;48;58;48;48;32;65;77]; CStr [66;117;121]; CStr [70;79;79]; CStr [100]; CFloat (Some (Qcfrac (10) 1)) [49;48]; CFloat (Some (Qcfrac (25) 2)) [49;50;46;53]; CFloat (Some (Qcfrac (0) 1)) [48]; CFloat (Some (Qcfrac (-99) 20)) [45;52;46;57;53]; CFloat (Some (Qcfrac (-2599) 20)) [45;49;50;57;46;57;53]; CStr [85;83;68]; CStr [49;50;51;52;53;54;55;56]; CStr [84;114;97;100;101;115]; CStr [73;110;100;105;118;105;100;117;97;108;32;109;97;114;103;105;110]];
+   [CStr [50;48;50;51;45;48;49;45;48;52;32;49;50;58;48;48;58;48;48;32;65;77]; CStr [50;48;50;51;45;48;49;45;48;54;32;49;50;58;48;48;58;48;48;32;65;77]; CStr [83;101;108;108]; CStr [70;79;79]; CStr [100]; CFloat (Some (Qcfrac (-3) 1)) [45;51]; CFloat (Some (Qcfrac (13) 1)) [49;51]; CFloat (Some (Qcfrac (0) 1)) [48]; CFloat (Some (Qcfrac (-99) 20)) [45;52;46;57;53]; CFloat (Some (Qcfrac (681) 20)) [51;52;46;48;53]; CStr [67;65;68]; CStr [49;50;51;52;53;54;55;56]; CStr [84;114;97;100;101;115]; CStr [73;110;100;105;118;105;100;117;97;108;32;109;97;114;103;105;110]];
+   [CStr [50;48;50;51;45;48;49;45;48;52;32;49;50;58;48;48;58;48;48;32;65;77]; CStr [50;48;50;51;45;48;49;45;48;52;32;49;50;58;48;48;58;48;48;32;65;77]; CStr [70;88;84]; CEmpty; CStr [100]; CFloat (Some (Qcfrac (0) 1)) [48]; CFloat (Some (Qcfrac (0) 1)) [48]; CFloat (Some (Qcfrac (0) 1)) [48]; CFloat (Some (Qcfrac (0) 1)) [48]; CFloat (Some (Qcfrac (-1350) 1)) [45;49;51;53;48]; CStr [67;65;68]; CStr [49;50;51;52;53;54;55;56]; CStr [84;114;97;100;101;115]; CStr [73;110;100;105;118;105;100;117;97;108;32;109;97;114;103;105;110]];
+   [CStr [50;48;50;51;45;48;49;45;48;52;32;49;50;58;48;48;58;48;48;32;65;77]; CStr [50;48;50;51;45;48;49;45;48;52;32;49;50;58;48;48;58;48;48;32;65;77]; CStr [70;88;84]; CEmpty; CStr [100]; CFloat (Some (Qcfrac (0) 1)) [48]; CFloat (Some (Qcfrac (0) 1)) [48]; CFloat (Some (Qcfrac (0) 1)) [48]; CFloat (Some (Qcfrac (0) 1)) [48]; CFloat (Some (Qcfrac (1000) 1)) [49;48;48;48]; CStr [85;83;68]; CStr [49;50;51;52;53;54;55;56]; CStr [84;114;97;100;101;115]; CStr [73;110;100;105;118;105;100;117;97;108;32;109;97;114;103;105;110]];
+   [CStr [50;48;50;51;45;48;49;45;48;57;32;49;50;58;48;48;58;48;48;32;65;77]; CStr [50;48;50;51;45;48;49;45;48;57;32;49;50;58;48;48;58;48;48;32;65;77]; CStr [68;73;86]; CStr [70;79;79]; CStr [100]; CFloat (Some (Qcfrac (0) 1)) [48]; CFloat (Some (Qcfrac (0) 1)) [48]; CFloat (Some (Qcfrac (0) 1)) [48]; CFloat (Some (Qcfrac (0) 1)) [48]; CFloat (Some (Qcfrac (617) 50)) [49;50;46;51;52]; CStr [85;83;68]; CStr [49;50;51;52;53;54;55;56]; CStr [84;114;97;100;101;115]; CStr [73;110;100;105;118;105;100;117;97;108;32;109;97;114;103;105;110]];
+   [CStr [50;48;50;51;45;48;49;45;49;48;32;49;50;58;48;48;58;48;48;32;65;77]; CStr [50;48;50;51;45;48;49;45;49;48;32;49;50;58;48;48;58;48;48;32;65;77]; CStr [68;69;80]; CEmpty; CStr [100]; CFloat (Some (Qcfrac (0) 1)) [48]; CFloat (Some (Qcfrac (0) 1)) [48]; CFloat (Some (Qcfrac (0) 1)) [48]; CFloat (Some (Qcfrac (0) 1)) [48]; CFloat (Some (Qcfrac (500) 1)) [53;48;48]; CStr [67;65;68]; CStr [49;50;51;52;53;54;55;56]; CStr [84;114;97;100;101;115]; CStr [73;110;100;105;118;105;100;117;97;108;32;109;97;114;103;105;110]]].
+Definition ex_sheet : sheet := ex_header :: ex_rows.
+Definition junk : cell := CStr [106;117;110;107].
+Definition no_opts : opts :=
+  {| o_account := None; o_security := None; o_no_fx := false; o_no_sort := false; o_rate := None |}.
+
+(* a blank-headed column before Quantity (column 5) *)
+Definition ex_sheet_blank : sheet := insert_col 5 CEmpty [junk; junk; junk; junk; junk; junk] ex_sheet.
+
+Definition out_rows (r : res run_result) : list btx :=
+  match r with Ok (RunOut rows _) => rows | _ => [] end.
+Definition out_errs (r : res run_result) : list (N * N) :=
+  match r with Ok (RunOut _ e) => e | Ok (RunFatal e) => e | _ => [] end.
+
+(* the code before the fix: the column indices shift, Quantity reads "junk" *)
+Lemma blank_header_filtered_differs :
+  out_errs (run exact HeaderFiltered no_opts ex_sheet) = [] /\
+  length (out_rows (run exact HeaderFiltered no_opts ex_sheet)) = 5%nat /\
+  out_errs (run exact HeaderFiltered no_opts ex_sheet_blank)
+  = [(2, QErr.bad_number Col.qty); (3, QErr.bad_number Col.qty); (5, QErr.fxt_not_one_cad)]%N /\
+  length (out_rows (run exact HeaderFiltered no_opts ex_sheet_blank)) = 0%nat.
+Proof. vm_compute. repeat split. Qed.
+
+Lemma blank_header_enumerated_same :
+  run exact HeaderEnumerated no_opts ex_sheet_blank = run exact HeaderEnumerated no_opts ex_sheet.
+Proof.
+  apply run_ext. unfold ex_sheet_blank, ex_sheet.
+  apply layout_insert; [ | vm_compute; lia | reflexivity | reflexivity].
+  repeat constructor.
+Qed.
+
+Lemma ex_sheet_facts :
+  exists rows txs,
+    sheet_rows HeaderEnumerated ex_sheet = Some rows /\
+    convert exact rows = Ok (txs, []) /\ forallb row_sane rows = true /\
+    length (filter is_trade txs) = 2%nat /\ length (filter is_fx txs) = 3%nat /\
+    Qceqb (usd_flow rows) (Qcfrac 88239 100) = true /\
+    map (fun c => (this (fst (fst c)), this (snd (fst c)), snd c)) (rated txs)
+    = [(1000 # 1, 27 # 20, 5%N)]%Q.
+Proof.
+  eexists. eexists. split; [reflexivity|]. split; [vm_compute; reflexivity|].
+  vm_compute. repeat split.
+Qed.
